@@ -24,6 +24,9 @@ pub mod pool {
     }
     impl<T> Receiver<T> {
         pub uninterp spec fn chan(&self) -> int;
+        /// `rx.await` where the contract does not say more: the value sent, or an error when the sender is gone
+        #[verifier::external_body]
+        pub fn vx_await(self) -> (r: Result<T, ()>) { unimplemented!() }
     }
     impl<T> Pool<T> {
         #[verifier::external_body]
